@@ -275,6 +275,33 @@ static void check_routes(impl::Lexicon& lex, Rng& rng, std::uint64_t inst)
    tcount("routes_checked");
 }
 
+// The constants as a Lexicon built during static initialisation sees them (constructor of a namespace-scope object with the
+// earliest priority a program may ask for, so before any dynamic initialiser of the library's translation units): same nodes,
+// same spellings, same routes as inside main().  Only plain arrays are filled here.
+struct EarlyConstants {
+   bool ran = false, threw = false;
+   const void* snap[NB + 16] = { }; std::size_t count = 0;
+   bool spelled[NB] = { }, routed[NB] = { }, symbol_spelled[5] = { };
+   bool linkages_routed = false, default_label_routed = false;
+   EarlyConstants()
+   {
+      try {
+         impl::Lexicon lex; const Lexicon& L = lex;
+         for (auto p : snapshot(L)) if (count < NB + 16) snap[count++] = p;
+         for (int i = 0; i < NB; ++i) {
+            const Type& t = (L.*builtins[i].get)();
+            spelled[i] = name_spelling(t.name()) == builtins[i].spelling;
+            routed[i] = &lex.get_as_type(lex.get_identifier(widen(std::string(builtins[i].spelling)))) == &t && &lex.get_identifier(widen(std::string(builtins[i].spelling))) == &t.name();
+         }
+         for (int i = 0; i < 5; ++i) symbol_spelled[i] = name_spelling((L.*symbols[i].get)().name()) == symbols[i].spelling;
+         linkages_routed = &lex.get_linkage(u8"C") == &L.c_linkage() && &lex.get_linkage(u8"C++") == &L.cxx_linkage();
+         default_label_routed = &lex.get_label(lex.get_identifier(u8"default")) == &L.default_value();
+      } catch (...) { threw = true; }
+      ran = true;
+   }
+};
+__attribute__((init_priority(101))) static EarlyConstants early_constants;
+
 static void body(Ctx& C)
 {
    C.rule("finite space, enumerated: 26 built-in accessors (325 pairs), 5 symbolic constants, 2 linkages, each checked for spelling, "
@@ -291,6 +318,21 @@ static void body(Ctx& C)
       ref = snapshot(first);
       check_self_description(first, C.worker * 100000);
       check_routes(first, rng, C.worker * 100000);
+   }
+   {
+      const EarlyConstants& E = early_constants;
+      C.count("constants_seen_during_static_initialisation", E.ran ? (long long)E.count : 0);
+      if (!E.ran || E.threw) C.viol("static-initialisation:lexicon-unusable", "a Lexicon built and asked for its constants during static initialisation raised an exception");
+      else {
+         if (E.count != ref.size() || !std::equal(ref.begin(), ref.end(), E.snap)) C.viol("process-wide:differs-during-static-initialisation", "a Lexicon built during static initialisation returned other constant nodes than one built inside main()");
+         for (int i = 0; i < NB; ++i) {
+            if (!E.spelled[i]) C.viol(std::string("builtin:spelling:during-static-initialisation:") + builtins[i].accessor, std::string(builtins[i].accessor) + "() does not name itself with its documented spelling during static initialisation");
+            if (!E.routed[i]) C.viol("route:identifier->as-type:lookalike:during-static-initialisation", std::string("the spelling \"") + builtins[i].spelling + "\" does not lead to the built-in type during static initialisation");
+         }
+         for (int i = 0; i < 5; ++i) if (!E.symbol_spelled[i]) C.viol(std::string("constant:spelling:during-static-initialisation:") + symbols[i].accessor, std::string(symbols[i].accessor) + "() is not spelled as documented during static initialisation");
+         if (!E.linkages_routed) C.viol("route:word->linkage:during-static-initialisation", "a standard linkage spelling does not lead to the constant during static initialisation");
+         if (!E.default_label_routed) C.viol("route:identifier->label:default:during-static-initialisation", "get_label(identifier \"default\") is not default_value() during static initialisation");
+      }
    }
    // sequential instances, with heap noise and earlier instances destroyed or alive
    std::vector<std::unique_ptr<impl::Lexicon>> alive;
@@ -323,7 +365,7 @@ static void body(Ctx& C)
    C.sample(J().s("kind", "route").s("route", "get_as_type(get_identifier(\"long long\"))").s("expect", "long_long_type()").str());
    C.sample(J().s("kind", "near-miss").s("route", "get_as_type(get_identifier(\"long long \"))").s("expect", "not a constant, unified").str());
    C.need("builtin_accessors_checked"); C.need("builtin_pairs_checked"); C.need("routes_checked"); C.need("near_miss_routes_checked");
-   C.need("lexicon_instances"); C.need("lexicon_instances_threaded"); C.need("same_length_hash_twins_of_constant_spellings_planted");
+   C.need("lexicon_instances"); C.need("lexicon_instances_threaded"); C.need("same_length_hash_twins_of_constant_spellings_planted"); C.need("constants_seen_during_static_initialisation");
    C.exhaustive(true);
 }
 
